@@ -35,8 +35,10 @@ structure DState where
   inq : List (List Nat) := []
   deriving DecidableEq, Repr
 
+/-- Checker mode keeps EVERY model state that is consistent with the observations so far: two orders of a
+`run` may look the same now (a paused protocol, a reset racing with a finished negotiation) and differ later. -/
 structure State where
-  d : Option DState := none
+  ds : List DState := []
 
 def init : State := {}
 
@@ -105,15 +107,64 @@ def apply (d : DState) (l : TLabel) : DState :=
     { d with t := t', inq := if delivered then pushInq d.inq p k else d.inq }
   | _ => { d with t := t' }
 
-/-- Every state reachable by firing enabled transitions until none is enabled. -/
-partial def explore (work seen finals : List DState) : List DState :=
+def stageStr : Stage → String
+  | .negotiating => "n" | .queued => "q" | .held => "h" | .gone => "g"
+
+def subStr (d : DState) (k : Option Nat) : String :=
+  match k.bind (d.t.subs[·]?) with
+  | some x => stageStr x.stage ++ (match x.proto with | some p => toString p | none => "_")
+  | none => "-"
+
+/-- Letters of the messages in protocol `i`'s channel (`Oi`/`Oo` through `inq`). -/
+def queueLetters (d : DState) (i : Nat) : List String :=
+  match d.t.loop.ps.chans[i]? with
+  | none => []
+  | some c =>
+    if c.alive = false then ["x"] else
+    (c.queue.foldl (fun (acc : List String × List Nat) m =>
+      match m with
+      | .substreamOpened =>
+        match acc.2 with
+        | k :: rest => (acc.1 ++ [match d.t.subs[k]? with
+            | some x => if x.inbound then "Oi" else "Oo"
+            | none => "O?"], rest)
+        | [] => (acc.1 ++ ["O?"], [])
+      | .established => (acc.1 ++ ["E"], acc.2)
+      | .closed => (acc.1 ++ ["C"], acc.2)
+      | .openFailure => (acc.1 ++ ["X"], acc.2)
+      | .filler => (acc.1 ++ ["F"], acc.2)) ([], d.inq.getD i [])).1
+
+/-- Everything the future observations depend on. Two orders of the same transitions differ in the ghost log
+and in the positions of the substreams in the table, not in this key; exploring one of them is enough. -/
+def key (d : DState) : String :=
+  let l := d.t.loop
+  let ex := match l.exited with | none => "r" | some .ok => "o" | some .err => "e"
+  let co := match l.cont with
+    | none => "-" | some .closeThenExit => "c" | some .substreamReport => "s" | some .errorExitReport => "x"
+  let hs := String.join (d.t.handles.map fun h => match h with | .dropped => "d" | .inactive => "i" | .active => "a")
+  let cq := String.join (d.t.cmdQ.map fun c => match c with | .openSub i => s!"o{i}" | .forceClose => "f")
+  let rs := joinWith ";" (d.rstreams.map fun r =>
+    (match r.proposal with | none => "h" | some none => "u" | some (some j) => toString j) ++
+    (if r.taken then "t" else "w") ++ (if r.reset then "r" else "") ++ subStr d r.sub)
+  let os := joinWith ";" (d.outAns.map fun (k, p) =>
+    (match p with | .accept => "a" | .refuse => "r" | .stall => "s") ++ subStr d (some k))
+  let qs := joinWith ";" ((List.range d.n).map fun i => joinWith "," (queueLetters d i))
+  let mg := if l.ps.mgr.alive then toString l.ps.mgr.queue.length else "x"
+  ex ++ co ++ s!"|{d.t.accepted}|" ++ hs ++ "|" ++ cq ++ "|" ++ rs ++ "|" ++ os ++ "|" ++ qs ++ "|" ++ mg ++
+    (if l.ps.closedReported then "|R" else "|")
+
+/-- Every state (up to `key`) reachable by firing enabled transitions until none is enabled. -/
+partial def exploreK (work : List DState) (seen : List String) (finals : List DState) : List DState :=
   match work with
   | [] => finals
   | d :: rest =>
-    if seen.contains d then explore rest seen finals else
+    let k := key d
+    if seen.contains k then exploreK rest seen finals else
     let evs := enabled d
-    if evs.isEmpty then explore rest (d :: seen) (if finals.contains d then finals else finals ++ [d])
-    else explore (evs.map (apply d) ++ rest) (d :: seen) finals
+    if evs.isEmpty then exploreK rest (k :: seen) (finals ++ [d])
+    else exploreK (evs.map (apply d) ++ rest) (k :: seen) finals
+
+def explore (work : List DState) (_seen _finals : List DState) : List DState := exploreK work [] []
 
 /-! ### draining and the observation -/
 
@@ -207,6 +258,119 @@ def checkRace (k : Nat) (impl : String) : String :=
   if !toks.isEmpty && parsed.all (fun p => allowed.contains p.1 && p.2.isSome) && total = k then impl
   else "each-of:" ++ joinWith "|" allowed ++ s!" total={k}"
 
+/-- One deterministic operation on one candidate: `none` = unparseable. -/
+def opOn (d : DState) (ts : List String) : Option (DState × String) :=
+  let fin := fun (d : DState) (ret : String) => some (observe d ret)
+  let idx := fun (s : String) => (s.toNat?).filter (· < d.n)
+  match ts with
+  | ["downgrade", i] =>
+    match idx i with
+    | none => none
+    | some i =>
+      if handleOf d i = .dropped then fin d "none" else fin { d with t := tstep d.t (.downgrade i) } "ok"
+  | ["upgrade", i] =>
+    match idx i with
+    | none => none
+    | some i =>
+      if handleOf d i = .dropped then fin d "none" else
+      let d' := { d with t := tstep d.t (.upgrade i) }
+      fin d' (if handleOf d' i = .active then "active" else "inactive")
+  | ["drop_handle", i] =>
+    match idx i with
+    | none => none
+    | some i =>
+      if handleOf d i = .dropped then fin d "none" else fin { d with t := tstep d.t (.dropHandle i) } "ok"
+  | ["local_open", i] =>
+    match idx i with
+    | none => none
+    | some i =>
+      if handleOf d i = .dropped then fin d "none" else
+      if canSend d.t i && d.t.loop.exited.isNone then fin { d with t := tstep d.t (.localOpen i) } "ok"
+      else fin d "closed"
+  | ["force_close", i] =>
+    match idx i with
+    | none => none
+    | some i =>
+      if handleOf d i = .dropped then fin d "none" else
+      if canSend d.t i && d.t.loop.exited.isNone then fin { d with t := tstep d.t (.forceClose i) } "ok"
+      else fin d "closed"
+  | ["remote_open", name, how] =>
+    match protoTok d.n name, (how = "hdr" || how = "full") with
+    | some p, true =>
+      if d.remoteClosed then fin d "none" else
+      let r : RStream := { proposal := if how = "full" then some p else none }
+      fin { d with rstreams := d.rstreams ++ [r] } s!"s{d.rstreams.length}"
+    | _, _ => none
+  | ["remote_continue", k, name] =>
+    match k.toNat?, protoTok d.n name with
+    | some k, some p =>
+      match d.rstreams[k]? with
+      | some r =>
+        if r.reset || d.remoteClosed then fin d "none" else
+        -- a listener that answered `na` (or saw only the header) keeps waiting for a proposal
+        let r' := match r.proposal with
+          | some (some _) => r
+          | _ => { r with proposal := some p }
+        fin { d with rstreams := d.rstreams.set k r' } "ok"
+      | none => fin d "none"
+    | _, _ => none
+  | ["remote_reset", k] =>
+    match k.toNat? with
+    | some k =>
+      match d.rstreams[k]? with
+      | some r =>
+        if r.reset || d.remoteClosed then fin d "none" else
+        fin { d with rstreams := d.rstreams.set k { r with reset := true } } "ok"
+      | none => fin d "none"
+    | none => none
+  | ["remote_close"] =>
+    if d.remoteClosed then fin d "none" else fin { d with remoteClosed := true } "ok"
+  | ["remote_goaway"] =>
+    if d.remoteClosed then fin d "none" else fin { d with remoteClosed := true } "ok"
+  | ["remote_policy", p] =>
+    match p with
+    | "accept" => fin { d with policy := .accept } "ok"
+    | "refuse" => fin { d with policy := .refuse } "ok"
+    | "stall" => fin { d with policy := .stall } "ok"
+    | _ => none
+  | ["drop_sub", i] =>
+    match idx i with
+    | none => none
+    | some i =>
+      match firstAt d.t.subs i .held with
+      | some _ => fin { d with t := tstep d.t (.dropSub i) } "ok"
+      | none => fin d "none"
+  | ["pause", i] =>
+    match idx i with
+    | none => none
+    | some i => fin { d with paused := d.paused.set i true } "ok"
+  | ["resume", i] =>
+    match idx i with
+    | none => none
+    | some i => fin { d with paused := d.paused.set i false } "ok"
+  | ["drop_rx", i] =>
+    match idx i with
+    | none => none
+    | some i =>
+      if protoAlive d.t i then
+        fin { d with t := tstep d.t (.dropRx i), inq := d.inq.set i [] } "ok"
+      else fin d "none"
+  | _ => none
+
+def dedup (l : List DState) : List DState :=
+  (l.foldl (fun (acc : List DState × List String) d =>
+    let k := key d
+    if acc.2.contains k then acc else (acc.1 ++ [d], k :: acc.2)) ([], [])).1
+
+/-- Keep the candidates whose observation is the implementation's; if there is none, answer with the first
+candidate's observation (a disagreement) and go on with all of them. -/
+def choose (outs : List (DState × String)) (impl : String) : State × String :=
+  let hit := outs.filter fun x => x.2 = impl
+  if !hit.isEmpty then ({ ds := dedup (hit.map (·.1)) }, impl)
+  else match outs.head? with
+    | some (_, o) => ({ ds := dedup (outs.map (·.1)) }, o)
+    | none => ({ ds := [] }, "bad-op")
+
 def step (st : State) (line : String) : State × String :=
   let (line, impl) := match line.splitOn " -> " with
     | [l, o] => (l, o)
@@ -214,7 +378,7 @@ def step (st : State) (line : String) : State × String :=
   let ts := tokens line
   match ts with
   | "conn" :: args =>
-    if st.d.isSome then (st, "bad-op") else
+    if !st.ds.isEmpty then (st, "bad-op") else
     let kas := (arg? "ka" args).getD ""
     let pol := match arg? "remote" args with
       | none => some Policy.accept
@@ -229,118 +393,17 @@ def step (st : State) (line : String) : State × String :=
     | some pol =>
       if impl = "inconclusive" then (st, "inconclusive") else
       let (d, o) := observe (freshConn (kas.toList.map (· = 'Y')) pol) "ok"
-      ({ d := some d }, o)
+      ({ ds := [d] }, o)
   | ["arrange_race", k] =>
     match k.toNat? with
     | some k => if k ≤ 256 then (st, checkRace k impl) else (st, "bad-op")
     | none => (st, "bad-op")
+  | ["run"] =>
+    if st.ds.isEmpty then (st, "bad-op") else
+    choose ((explore st.ds [] []).map fun f => observe f "ok") impl
   | _ =>
-    match st.d with
-    | none => (st, "bad-op")
-    | some d =>
-      let fin := fun (d : DState) (ret : String) =>
-        let (d', o) := observe d ret
-        (({ d := some d' } : State), o)
-      let idx := fun (s : String) => (s.toNat?).filter (· < d.n)
-      match ts with
-      | ["run"] =>
-        let outs := (explore [d] [] []).map fun f => observe f "ok"
-        match outs.find? (fun x => x.2 = impl) with
-        | some (d', o) => ({ d := some d' }, o)
-        | none =>
-          match outs.head? with
-          | some (d', o) => ({ d := some d' }, o)
-          | none => fin d "ok"
-      | ["downgrade", i] =>
-        match idx i with
-        | none => (st, "bad-op")
-        | some i =>
-          if handleOf d i = .dropped then fin d "none" else fin { d with t := tstep d.t (.downgrade i) } "ok"
-      | ["upgrade", i] =>
-        match idx i with
-        | none => (st, "bad-op")
-        | some i =>
-          if handleOf d i = .dropped then fin d "none" else
-          let d' := { d with t := tstep d.t (.upgrade i) }
-          fin d' (if handleOf d' i = .active then "active" else "inactive")
-      | ["drop_handle", i] =>
-        match idx i with
-        | none => (st, "bad-op")
-        | some i =>
-          if handleOf d i = .dropped then fin d "none" else fin { d with t := tstep d.t (.dropHandle i) } "ok"
-      | ["local_open", i] =>
-        match idx i with
-        | none => (st, "bad-op")
-        | some i =>
-          if handleOf d i = .dropped then fin d "none" else
-          if canSend d.t i && d.t.loop.exited.isNone then fin { d with t := tstep d.t (.localOpen i) } "ok"
-          else fin d "closed"
-      | ["force_close", i] =>
-        match idx i with
-        | none => (st, "bad-op")
-        | some i =>
-          if handleOf d i = .dropped then fin d "none" else
-          if canSend d.t i && d.t.loop.exited.isNone then fin { d with t := tstep d.t (.forceClose i) } "ok"
-          else fin d "closed"
-      | ["remote_open", name, how] =>
-        match protoTok d.n name, (how = "hdr" || how = "full") with
-        | some p, true =>
-          if d.remoteClosed then fin d "none" else
-          let r : RStream := { proposal := if how = "full" then some p else none }
-          fin { d with rstreams := d.rstreams ++ [r] } s!"s{d.rstreams.length}"
-        | _, _ => (st, "bad-op")
-      | ["remote_continue", k, name] =>
-        match k.toNat?, protoTok d.n name with
-        | some k, some p =>
-          match d.rstreams[k]? with
-          | some r =>
-            if r.reset || d.remoteClosed then fin d "none" else
-            -- a listener that answered `na` (or saw only the header) keeps waiting for a proposal
-            let r' := match r.proposal with
-              | some (some _) => r
-              | _ => { r with proposal := some p }
-            fin { d with rstreams := d.rstreams.set k r' } "ok"
-          | none => fin d "none"
-        | _, _ => (st, "bad-op")
-      | ["remote_reset", k] =>
-        match k.toNat? with
-        | some k =>
-          match d.rstreams[k]? with
-          | some r =>
-            if r.reset || d.remoteClosed then fin d "none" else
-            fin { d with rstreams := d.rstreams.set k { r with reset := true } } "ok"
-          | none => fin d "none"
-        | none => (st, "bad-op")
-      | ["remote_close"] =>
-        if d.remoteClosed then fin d "none" else fin { d with remoteClosed := true } "ok"
-      | ["remote_policy", p] =>
-        match p with
-        | "accept" => fin { d with policy := .accept } "ok"
-        | "refuse" => fin { d with policy := .refuse } "ok"
-        | "stall" => fin { d with policy := .stall } "ok"
-        | _ => (st, "bad-op")
-      | ["drop_sub", i] =>
-        match idx i with
-        | none => (st, "bad-op")
-        | some i =>
-          match firstAt d.t.subs i .held with
-          | some _ => fin { d with t := tstep d.t (.dropSub i) } "ok"
-          | none => fin d "none"
-      | ["pause", i] =>
-        match idx i with
-        | none => (st, "bad-op")
-        | some i => fin { d with paused := d.paused.set i true } "ok"
-      | ["resume", i] =>
-        match idx i with
-        | none => (st, "bad-op")
-        | some i => fin { d with paused := d.paused.set i false } "ok"
-      | ["drop_rx", i] =>
-        match idx i with
-        | none => (st, "bad-op")
-        | some i =>
-          if protoAlive d.t i then
-            fin { d with t := tstep d.t (.dropRx i), inq := d.inq.set i [] } "ok"
-          else fin d "none"
-      | _ => (st, "bad-op")
+    if st.ds.isEmpty then (st, "bad-op") else
+    let outs := st.ds.filterMap fun d => opOn d ts
+    if outs.isEmpty then (st, "bad-op") else choose outs impl
 
 end Litep2pVerif.Driver.Tcploop
